@@ -103,6 +103,7 @@ Section Prog.
     | SAssign _ _ e => nonan_tb m e
     | SCondJmp _ (CExpr e) _ _ => nonan_b m e
     | SDecl t [(d, Some e)] => nonan_tb (update m (VLoc d) (default_of t)) e
+    | SCall _ args => forallb (nonan_tb m) args
     | _ => true
     end.
 
